@@ -54,11 +54,24 @@ fn deal(rng: &mut Rng, pool: &mut Vec<String>, names: &BTreeMap<String, String>,
     out
 }
 
+/// renaming with Go keywords and predeclared identifiers only (names the compiler is expected to handle)
+pub fn keyword_renaming(prog: &Program, rng: &mut Rng) -> Renaming {
+    renaming_from(prog, rng, false)
+}
+
 fn adversarial_renaming(prog: &Program, rng: &mut Rng) -> Renaming {
+    renaming_from(prog, rng, true)
+}
+
+fn renaming_from(prog: &Program, rng: &mut Rng, generated_lookalikes: bool) -> Renaming {
     let names = collect_names(prog);
     let existing: std::collections::BTreeSet<String> =
         names.types.keys().chain(names.variants.keys()).chain(names.fields.keys()).chain(names.methods.keys()).chain(names.fns.keys()).chain(names.locals.keys()).cloned().collect();
-    let all: Vec<String> = GO_KEYWORDS.iter().chain(GO_PREDECLARED).chain(RUNTIME_NAMES).chain(TEMPS).chain(MANGLED).map(|s| s.to_string()).filter(|s| !existing.contains(s)).collect();
+    let all: Vec<String> = if generated_lookalikes {
+        GO_KEYWORDS.iter().chain(GO_PREDECLARED).chain(RUNTIME_NAMES).chain(TEMPS).chain(MANGLED).map(|s| s.to_string()).filter(|s| !existing.contains(s)).collect()
+    } else {
+        GO_KEYWORDS.iter().chain(GO_PREDECLARED).chain(["fmt", "main0", "init"].iter()).map(|s| s.to_string()).filter(|s| !existing.contains(s)).collect()
+    };
     // value namespace: functions, locals and variants get mutually distinct names
     let mut value_pool = all.clone();
     let mut r = Renaming::default();
@@ -134,12 +147,18 @@ fn name_set_program(ns: &NameSet, rng: &mut Rng) -> (String, Vec<String>) {
         s.push_str(&format!("struct {} {{ v: int32 }}\n", tn));
     }
     s.push_str("struct Bx[T] { it: T }\nfn idg[T](x: T) -> T { x }\n");
+    // impl blocks in random order (which impl comes first must not matter)
+    let mut impl_blocks: Vec<String> = Vec::new();
     for (i, tr) in r.iter().enumerate() {
         for (j, tn) in t.iter().enumerate() {
             let c = 100 * (i as i64 + 1) + 10 * (j as i64 + 1);
-            s.push_str(&format!("impl {} for {} {{\n    fn {}(self: {}) -> int32 {{ self.v + {} }}\n}}\n", tr, tn, m0, tn, c));
+            impl_blocks.push(format!("impl {} for {} {{\n    fn {}(self: {}) -> int32 {{ self.v + {} }}\n}}\n", tr, tn, m0, tn, c));
             line(&mut main, &mut exp, format!("{}::{}({} {{ v: 1 }})", tr, m0, tn), 1 + c);
         }
+    }
+    rng.shuffle(&mut impl_blocks);
+    for b in impl_blocks {
+        s.push_str(&b);
     }
     for (j, tn) in t.iter().enumerate() {
         let c = 1000 + j as i64;
